@@ -13,7 +13,12 @@ for m in MODULES:
         if e.name == m:
             continue
         raise
+    except Exception as e:     # a props module still under construction
+        print("skipping %s: %s" % (m, e))
+        continue
     reg.update(mod.PROPS)
+claimed = set(open(os.path.join(ROOT, "claimed.txt")).read().split())
+reg = {k: v for k, v in reg.items() if k in claimed}
 props = [json.loads(l) for l in open(os.path.join(ROOT, "properties.jsonl"))]
 na_reasons = {}
 nap = os.path.join(ROOT, "not_applicable.json")
